@@ -176,3 +176,29 @@ package casket
 //@ // string; the shell-style splitter may return no parts at all (a comment-only command) without an error.
 //@ // parseWindowsCommand (reached only when runtime.GOOS is "windows") is not covered: its part[:len(part)-1] needs an
 //@ // invariant over a string range loop that the engine cannot state yet.
+
+//@ unit signal_reload props=C08 filter=`casket\.trapSignalsPosix\$1$`
+//@ // SIGUSR1 reload: "a failed attempt leaves the registered event hooks as they were". hooksPurged is 1 from the moment
+//@ // the handler purges the hook registry until it either restores the saved copy or the restart succeeds (the new
+//@ // configuration has registered its own); the handler is back at the top of its signal loop only with hooksPurged == 0.
+//@ ghost hooksPurged int
+//@ ghost savedHooks int
+//@ func cloneEventHooks
+//@   modifies ghost:savedHooks
+//@   ensures result != nil && savedHooks == result
+//@ func purgeEventHooks
+//@   modifies ghost:hooksPurged
+//@   ensures hooksPurged == 1
+//@ func restoreEventHooks
+//@   requires [restores_the_saved_copy] m == savedHooks
+//@   modifies ghost:hooksPurged
+//@   ensures hooksPurged == 0
+//@ func (*Instance).Restart
+//@   modifies ghost:hooksPurged
+//@   ensures (result1 == nil ==> hooksPurged == 0) && (result1 != nil ==> hooksPurged == old(hooksPurged))
+//@ func getCurrentCasketfile
+//@   ensures result2 == nil ==> result1 != nil
+//@ func trapSignalsPosix$1
+//@   requires hooksPurged == 0
+//@   modifies ghost:hooksPurged, ghost:savedHooks
+//@   loop 1 invariant [hooks_intact_between_signals] hooksPurged == 0
